@@ -37,10 +37,15 @@ VARIABLES
   inv,       \* client op -> invoke event (plus line)
   wdone,     \* set of [op, index, val, line]   successful replicated submissions
   rdone,     \* set of [op, last, count, line, inv]  successful linearizable reads
+  retd,      \* client ops that returned
+  dead,      \* set of <<node, inc>> that crashed (their clients never hear back)
+  mtrack,    \* membership call -> [node, idx, term, st] : the entry it appended and what became of it
+  mwait,     \* node -> membership op invoked there whose entry has not been seen yet
+  finals,    \* node -> `final' event of the heal phase
   bad        \* set of violation records
 
 vars == <<l, meta, dur, pstate, maxterm, votes, applied, cursor, leaders, lfirst, committed,
-          reqs, hpre, stat, inv, wdone, rdone, bad>>
+          reqs, hpre, stat, inv, wdone, rdone, retd, dead, mtrack, mwait, finals, bad>>
 
 -----------------------------------------------------------------------------
 Ev == Trace[l]
@@ -416,6 +421,74 @@ C18_Panic ==
   (IF Is("panic") THEN {V("C18", "Panic", <<Ev.msg>>)} ELSE {})
   \cup (IF Is("abort") THEN {V("C18", "Abort", <<Ev.why>>)} ELSE {})
 
+
+-----------------------------------------------------------------------------
+(* C15 -- after the faults stop.  The harness runs the fault-free period (all members    *)
+(* restarted, prompt reliable network, free timers) and reports whether one leader        *)
+(* existed, a fresh operation completed and every running member of the leader's          *)
+(* configuration held the leader's applied sequence within B, within 4B, or not at all.   *)
+C15_Converge ==
+  IF ~Is("heal_done") THEN {} ELSE
+    IF Ev.conv = "no"
+      THEN {V("C15", "NotConvergedWithin4B",
+              <<[n \in DOMAIN finals |-> <<finals[n].running, finals[n].role, finals[n].term, finals[n].commit,
+                                           finals[n].applied, Len(finals[n].content)>>]>>)}
+      ELSE {}
+
+-----------------------------------------------------------------------------
+(* C18 -- API totality: futures resolve by their time-out; nothing stays unresolved;      *)
+(* a membership change that commits while its submitter is still leader succeeds.         *)
+IsMemberCall(e) == e.call \in {"add", "remove"}
+
+\* bind a membership call to the configuration entry its node appends right after the call
+NextMwait ==
+  IF Is("scenario") THEN <<>>
+  ELSE IF Is("invoke") /\ IsMemberCall(Ev) THEN Put(mwait, Ev.node, Ev.op)
+  ELSE IF Is("log_append") /\ ~Has("err") /\ Ev.node \in DOMAIN mwait THEN Del(mwait, Ev.node)
+  ELSE IF Is("return") /\ IsMemberCall(Ev) /\ Ev.node \in DOMAIN mwait /\ mwait[Ev.node] = Ev.op THEN Del(mwait, Ev.node)
+  ELSE mwait
+
+MemberBind == Is("log_append") /\ ~Has("err") /\ Ev.node \in DOMAIN mwait /\ Ev.ctx = "" /\ Len(Ev.entries) = 1 /\ Ev.entries[1].k = 2
+
+\* the submitter is seen in another role or term before its entry commits -> no obligation
+MemberBroken(m) == Is("status") /\ Ev.node = m.node /\ m.st = "bound" /\ (Ev.role # 0 \/ Ev.term # m.term)
+MemberCommitted(m) == Is("status") /\ Ev.node = m.node /\ m.st = "bound" /\ Ev.role = 0 /\ Ev.term = m.term
+                      /\ Ev.commit >= m.idx /\ Ev.applied >= m.idx
+
+NextMtrack ==
+  IF Is("scenario") THEN <<>>
+  ELSE IF MemberBind THEN Put(mtrack, mwait[Ev.node], [node |-> Ev.node, idx |-> Ev.entries[1].i, term |-> Ev.entries[1].t, st |-> "bound"])
+  ELSE IF Is("status") \/ Is("crash") \/ Is("stop") THEN
+     [o \in DOMAIN mtrack |->
+        IF (Is("crash") \/ Is("stop")) /\ Ev.node = mtrack[o].node /\ mtrack[o].st = "bound" THEN [mtrack[o] EXCEPT !.st = "broken"]
+        ELSE IF Is("status") /\ MemberBroken(mtrack[o]) THEN [mtrack[o] EXCEPT !.st = "broken"]
+        ELSE IF Is("status") /\ MemberCommitted(mtrack[o]) THEN [mtrack[o] EXCEPT !.st = "committed"]
+        ELSE mtrack[o]]
+  ELSE mtrack
+
+C18_Futures ==
+  (IF Is("return") /\ Ev.op \in DOMAIN inv /\ inv[Ev.op].e.timeout > 0
+      /\ Ev.t - inv[Ev.op].e.t > inv[Ev.op].e.timeout + 1000
+     THEN {V("C18", "FutureResolvedAfterTimeout", <<Ev.op, Ev.call, inv[Ev.op].e.t, Ev.t, inv[Ev.op].e.timeout>>)} ELSE {})
+  \cup
+  (IF Is("closed") THEN
+     LET lost == {o \in DOMAIN inv \ retd : <<inv[o].e.node, inv[o].e.inc>> \notin dead} IN
+     IF lost # {} THEN {V("C18", "FutureNeverResolved", <<lost>>)} ELSE {}
+   ELSE {})
+  \cup
+  (IF Is("return") /\ IsMemberCall(Ev) /\ Ev.res # "ok" /\ Ev.op \in DOMAIN mtrack /\ mtrack[Ev.op].st = "committed"
+     THEN {V("C18", "MembershipFutureFailedThoughCommitted", <<Ev.op, Ev.call, Ev.id, Ev.res, mtrack[Ev.op].idx>>)} ELSE {})
+
+\* a successful membership future reports a configuration that contains the requested change
+C09_FutureTruth ==
+  IF ~(Is("return") /\ IsMemberCall(Ev) /\ Ev.res = "ok") THEN {} ELSE
+    LET vs == Range(Ev.cfg.v)  nvs == Range(Ev.cfg.n) IN
+    IF Ev.call = "add" /\ ~(IF Ev.voter THEN Ev.id \in vs ELSE Ev.id \in nvs)
+         THEN {V("C09", "FutureCfgLacksChange", <<Ev.op, Ev.id, Ev.cfg>>)}
+    ELSE IF Ev.call = "remove" /\ (Ev.id \in vs \cup nvs)
+         THEN {V("C09", "FutureCfgLacksChange", <<Ev.op, Ev.id, Ev.cfg>>)}
+    ELSE {}
+
 -----------------------------------------------------------------------------
 Recorder ==   \* recorder / reconstruction sanity: reported separately, never as a property violation
   (IF Is("log_append") /\ ~Has("err") /\ ~AppendContiguous(Log(Ev.node))
@@ -433,6 +506,7 @@ NewBad ==
              \cup C08_TermMonotone \cup C08_OneVote \cup C08_VoteUpToDate \cup C08_PrevoteInert \cup C08_Reload
              \cup C03_FutureTruth \cup C03_AtMostOnce \cup C03_RealTime \cup C03_NoInvention
              \cup C04_AckDurable \cup C04_Replay \cup C05_Reads \cup C14_Abort \cup C18_Panic \cup Recorder
+             \cup C15_Converge \cup C18_Futures \cup C09_FutureTruth
   IN {b \in all : b.p \in Props \/ b.p \in {"X", "W"}}
 
 Report(S) == \A b \in S : PrintT("MONITOR-BAD|" \o b.p \o "|" \o b.c \o "|" \o b.sc \o "|" \o ToString(b.line)
@@ -442,7 +516,8 @@ Init ==
   /\ l = 1 /\ meta = [voters |-> <<>>, family |-> ""]
   /\ dur = <<>> /\ pstate = <<>> /\ maxterm = <<>> /\ votes = {} /\ applied = <<>> /\ cursor = <<>>
   /\ leaders = <<>> /\ lfirst = {} /\ committed = <<>> /\ reqs = <<>> /\ hpre = <<>> /\ stat = <<>>
-  /\ inv = <<>> /\ wdone = {} /\ rdone = {} /\ bad = {}
+  /\ inv = <<>> /\ wdone = {} /\ rdone = {} /\ retd = {} /\ dead = {} /\ mtrack = <<>> /\ mwait = <<>>
+  /\ finals = <<>> /\ bad = {}
 
 Next ==
   /\ l <= Len(Trace)
@@ -466,6 +541,11 @@ Next ==
   /\ inv' = NextInv
   /\ wdone' = NextWdone
   /\ rdone' = NextRdone
+  /\ retd' = (IF Is("scenario") THEN {} ELSE IF Is("return") THEN retd \cup {Ev.op} ELSE retd)
+  /\ dead' = (IF Is("scenario") THEN {} ELSE IF Is("crash") THEN dead \cup {<<Ev.node, Ev.inc>>} ELSE dead)
+  /\ mtrack' = NextMtrack
+  /\ mwait' = NextMwait
+  /\ finals' = (IF Is("scenario") THEN <<>> ELSE IF Is("final") THEN Put(finals, Ev.node, Ev) ELSE finals)
 
 Spec == Init /\ [][Next]_vars
 
